@@ -162,7 +162,7 @@ theorem exprs_math (cfg : ScanCfg R) (c pre e post : List Nat)
     (items : List (Item R))
     (hs : Qentem.Expr.parseTop ({ readNum := cfg.readNum } : ScanCfg R) (e ++ [125]) 0 e.length = .ok items) :
     ∃ items', exprs cfg c [] (pre.length + 6) (pre.length + 6 + e.length) = .ok items' ∧
-      Qentem.Expr.RelItems (pre.length + 6) (e.length + 1) items items' := by
+      Qentem.Expr.RelItems Qentem.Expr.NoV (pre.length + 6) (e.length + 1) items items' := by
   have hc' : c = ((pre ++ [123, 109, 97, 116, 104]) ++ [58]) ++ (e ++ [125]) ++ post := by
     rw [hc]; simp [List.append_assoc]
   have hlen : ((pre ++ [123, 109, 97, 116, 104]) ++ [58]).length = pre.length + 6 := by simp
